@@ -12,6 +12,7 @@ INCRATE = {"C09": ("seed_demo.rs", "src/composer/tests/soundness/seed_demo.rs", 
            "C19r4": ("seed_demo.rs", "src/seed_demo.rs", "seed_demo"),
            "C10r5": ("seed_demo.rs", "src/composer/seed_demo.rs", "seed_demo"),
            "C12r7": ("seed_demo.rs", "src/composer/tests/seed_demo.rs", "seed_demo"),
+           "C20r11": ("seed_demo.rs", "src/seed_demo.rs", "seed_demo"),
            "C11r10": ("seed_demo.rs", "src/composer/tests/soundness/seed_demo.rs", "seed_demo"),
            "C13r9": ("seed_demo.rs", "src/composer/tests/soundness/seed_demo.rs", "seed_demo"),
            "C19r9": ("seed_demo.rs", "src/seed_demo.rs", "seed_demo"),
